@@ -28,6 +28,7 @@ type Pool struct {
 	Env          []string
 	RecycleEvery int // jobs per worker before it is replaced (0 = never)
 	Exe          string
+	MemKB        int64 // address-space limit of the workers (KB); 0 = default
 }
 
 // BootWorker spawns and boots one worker on a fresh scratch dir.
@@ -44,7 +45,7 @@ func (p *Pool) BootWorker() (*Worker, error) {
 }
 
 func (p *Pool) bootOnce() (*Worker, error) {
-	w, err := Spawn(SpawnOpts{Env: p.Env, Exe: p.Exe})
+	w, err := Spawn(SpawnOpts{Env: p.Env, Exe: p.Exe, MemKB: p.MemKB})
 	if err != nil {
 		return nil, err
 	}
